@@ -247,6 +247,7 @@ INVARIANT LockHolder
 
 # (NTask, NInst, UseLock, GSusp, MaxDel, OpsPer, faults)
 TIERS = {
+    "mini": [(2, 1, True, 1, 1, 1, True), (2, 1, False, 1, 1, 2, True)],
     "quick": [(1, 2, True, 0, 2, 4, False), (1, 1, False, 0, 2, 5, False), (2, 1, True, 1, 1, 1, True), (3, 1, True, 1, 0, 1, False),
               (2, 1, False, 1, 1, 2, True), (2, 2, True, 1, 0, 2, True), (1, 1, True, 1, 1, 3, True)],
     "thorough": [(1, 2, True, 0, 3, 5, False), (1, 2, False, 0, 3, 5, False), (3, 1, True, 2, 1, 1, True), (3, 1, False, 1, 1, 1, True),
@@ -362,12 +363,12 @@ def check(prop, tier, seed, into=None):
         drifted = [r for r in results if r["drift"]]
         clean = [r for r in results if not r["drift"]]
         tot["drift"] += len(drifted)
-        cap = 2000 if tier == "quick" else 30000
+        cap = 800 if tier == "mini" else 2000 if tier == "quick" else 30000
         alltraces += drifted + (clean if len(clean) <= cap else rnd.sample(clean, cap))
         for r in results:
             if not r["acct_ok"]:
                 v.violation("C12/cached_property/foreign-suspension", {"engine": "cprop", "path": r["path"], "cfg": r["cfg"]})
-    nrand = 1500 if tier == "quick" else 20000
+    nrand = 300 if tier == "mini" else 1500 if tier == "quick" else 20000
     jobs = [(seed * 15485863 + i, rnd.choice([1, 2, 3, 4, 5]), rnd.choice([1, 2, 3]), rnd.random() < 0.6, rnd.choice([0, 1, 2, 3])) for i in range(nrand)]
     with mp.Pool(min(16, os.cpu_count() or 4)) as pool:
         rres = pool.map(random_run, jobs, chunksize=64)
